@@ -2,7 +2,7 @@
    non-vacuity examples for the implication-shaped theorems. *)
 From Yv Require Import Common.Base C04.Model C04.Spec.
 From Yv Require Export C04.ProofsParse C04.ProofsRegex C04.ProofsMatch C04.ProofsSem
-  C04.ProofsPattern C04.ProofsOracle C04.ProofsTable.
+  C04.ProofsPattern C04.ProofsOracle C04.ProofsTable C04.ProofsPeriod.
 From Coq Require Import List NArith Bool Arith Lia.
 Import ListNotations.
 
@@ -63,13 +63,13 @@ Proof. apply (expansion_chars_like_with_escape_len (length s)). lia. Qed.
 (* compilation has a definite outcome whenever the emitted regex is in the
    modelled syntax (never "unsupported", never out of fuel) *)
 Lemma compile_total cfg p a :
-  parse_pattern p = Some a -> closed_complements a = true ->
+  parse_pattern p = Some a ->
   (exists b, compile cfg p = COk b) \/ (exists e, compile cfg p = CErr e).
 Proof.
-  intros Hp Hcl. rewrite (compile_parse _ _ _ Hp).
+  intros Hp. rewrite (compile_parse _ _ _ Hp).
   destruct (to_literal a) as [l|] eqn:Hlit.
   - left. eexists. apply compile_literal. exact Hlit.
-  - pose proof (compile_ast_cases cfg a Hcl Hlit) as Hc.
+  - pose proof (compile_ast_cases cfg a Hlit) as Hc.
     destruct (rx_of_ast cfg a); [left; eexists; exact Hc|right; exact Hc].
 Qed.
 
@@ -104,7 +104,7 @@ Definition f9b_ast : ast := [ABracket (mkBracket true [IAtom (BColl [233])])]%N.
 (* non-vacuity: the hypotheses of the theorems are met by real patterns  *)
 
 Example ex_parse : parse_pattern ex_pat = Some ex_ast /\ single_width ex_ast = true /\
-                   closed_complements ex_ast = true /\ valid_ast ex_ast = true.
+                   valid_ast ex_ast = true.
 Proof. vm_compute. repeat split; reflexivity. Qed.
 
 Example ex_case :
@@ -144,20 +144,21 @@ Qed.
 (* a single non-ASCII collating symbol inside a complemented bracket is an
    ordinary member (the inputs of the repaired defect) *)
 Example ex_nonascii_complement :
-  parse_pattern f9_pat = Some f9_ast /\ closed_complements f9_ast = true /\ single_width f9_ast = true /\
+  parse_pattern f9_pat = Some f9_ast /\ single_width f9_ast = true /\
   (exists b, compile case_config f9_pat = COk b /\
              pat_is_match case_config b [233]%N = false /\ pat_is_match case_config b [120]%N = true) /\
   (exists b, compile case_config f9b_pat = COk b /\ pat_is_match case_config b [120]%N = true).
 Proof.
-  split; [vm_compute; reflexivity|]. split; [reflexivity|]. split; [reflexivity|].
+  split; [vm_compute; reflexivity|]. split; [reflexivity|].
   split; eexists; vm_compute; repeat split; reflexivity.
 Qed.
 
-(* a multi-character collating symbol inside a complemented bracket with
-   another member: inside the domain of the `case` theorem *)
-Example ex_closed_complement_multi :
-  closed_complements [ABracket (mkBracket true [IAtom (BColl [99; 104]); IAtom (BChar 97)])]%N = true.
-Proof. reflexivity. Qed.
+(* a complemented bracket expression whose members are all multi-character
+   collating symbols denotes, and now matches, any one character ([![.ch.]]) *)
+Example ex_complement_of_multichar :
+  exists b, compile case_config (without_escape [91; 33; 91; 46; 99; 104; 46; 93; 93]%N) = COk b /\
+            pat_is_match case_config b [120]%N = true /\ pat_is_match case_config b [99; 104]%N = false.
+Proof. eexists. vm_compute. repeat split; reflexivity. Qed.
 
 Example ex_unclosed : ~ In (Normal c_rbr) (without_escape [97; 45; 98]%N).
 Proof. cbn. intros [H|[H|[H|[]]]]; discriminate. Qed.
@@ -199,3 +200,12 @@ Proof.
   - exact (Hno 2 H2).
 Qed.
 
+
+(* the period rule: *x against .x and against ax, .x against .x *)
+Example ex_period :
+  (exists b, compile period_config (without_escape [42; 120]%N) = COk b /\
+             pat_is_match period_config b [46; 120]%N = false /\
+             pat_is_match period_config b [97; 120]%N = true) /\
+  (exists b, compile period_config (without_escape [46; 42]%N) = COk b /\
+             pat_is_match period_config b [46; 120]%N = true).
+Proof. split; eexists; vm_compute; repeat split; reflexivity. Qed.
